@@ -62,14 +62,14 @@ var registry = map[string]func(t *testing.T, c *Collector){
 	},
 	"C10": func(t *testing.T, c *Collector) {
 		c.res.Rule = "legacy stores (version-2 single-file index, unversioned single-file primary, legacy freelist present or absent, primary tail cut off or not) generated from a set of histories with overwrites and removals; opened with every combination of index/primary file-size limits from {1,40,64,default}: contents must equal the generating map (cut-off keys absent), through a continuation with GC and a rescan reopen; every crash point and torn write of the upgrading open: reopening must complete the upgrade with the same contents; non-trivial = stores with >= 2 keys, plus torn images"
-		runC10Seq(c)
+		c.withShare(0.5, func() { runC10Seq(c) })
 		runCrashScenarios(c, c10CrashScenarios(c.job.Tier))
 		c.count("nontrivial", c.res.Counters["torn_images"])
 		c.res.Engine = "S + X (legacy-store generator x file-size limits; crash-image enumerator over the upgrading open)"
 	},
 	"C09": func(t *testing.T, c *Collector) {
 		c.res.Rule = "contents = end states of every history of <= depth ops over a colliding-key alphabet (multi-file index), closed under bit size b1 and reopened under b2 for every ordered pair of the bit-size set, then reads, iteration, a continuation, reopen (rescan) and reopen with b2 again against the reference map; file-size mismatches (index / primary / both) must be refused with the specific error, leave the directory byte-identical and the original settings working; every crash point and torn write of the re-bucketing reopen: opening the image with b1 and with b2 must each fail or show every previous key; non-trivial = histories ending with >= 2 keys sharing a bucket, plus torn images"
-		runSeqScenarios(c, c09Scenarios(c.job.Tier))
+		c.withShare(0.6, func() { runSeqScenarios(c, c09Scenarios(c.job.Tier)) })
 		runC09Mismatch(c)
 		xs := c09CrashScenarios(c.job.Tier)
 		for _, x := range xs {
@@ -85,7 +85,7 @@ var registry = map[string]func(t *testing.T, c *Collector){
 	},
 	"C08": func(t *testing.T, c *Collector) { runC08(c) },
 	"C14": func(t *testing.T, c *Collector) {
-		runC14(c)
+		c.withShare(0.6, func() { runC14(c) })
 		engine, rule, bound := c.res.Engine, c.res.Rule, c.res.Bound
 		scs := c14ConcScenarios(c.job.Tier)
 		runConcScenarios(t, c, scs)
@@ -132,10 +132,12 @@ var registry = map[string]func(t *testing.T, c *Collector){
 	"C03": func(t *testing.T, c *Collector) {
 		c.res.Rule = "every crash point (between consecutive file-system mutations) and every torn byte-prefix of every write of the last op of every history of <= depth ops (Put/Remove/Flush/IndexGC/PrimaryGC/Close+Open) after each preamble x configuration, incl. the initial Open; recovery by the real OpenStore; oracle: per-key allowed-value sets + continuation battery through GC and reopen; evaluations = distinct (image, allowed-set) pairs recovered; non-trivial = torn-write images"
 		if os.Getenv("VERIF_ONLY") != "conc" { // development aid: concurrent part alone
-			runCrashScenarios(c, c03Scenarios("C03", c.job.Tier))
+			// (at most 60% of the budget, so that the concurrent part runs
+			// in the thorough tier too)
+			c.withShare(0.6, func() { runCrashScenarios(c, c03Scenarios("C03", c.job.Tier)) })
 		}
 		c.count("nontrivial", c.res.Counters["torn_images"])
-		if !c.expired() && os.Getenv("VERIF_ONLY") != "seq" {
+		if os.Getenv("VERIF_ONLY") != "seq" {
 			engine := c.res.Engine
 			scs := c03ConcScenarios(c.job.Tier)
 			runConcScenarios(t, c, scs)
@@ -151,14 +153,14 @@ var registry = map[string]func(t *testing.T, c *Collector){
 	},
 	"C07": func(t *testing.T, c *Collector) {
 		c.res.Rule = "fsck (independent reader of every file format) on every quiescent state reached: after Flush against the live bucket table, after Close against snapshot and rescan; histories as in C04; non-trivial = a GC op mutated the file system"
-		runSeqScenarios(c, gcScenarios("C07", c.job.Tier))
-		runCrashScenarios(c, c03Scenarios("C07", c.job.Tier))
+		c.withShare(0.4, func() { runSeqScenarios(c, gcScenarios("C07", c.job.Tier)) })
+		c.withShare(0.5, func() { runCrashScenarios(c, c03Scenarios("C07", c.job.Tier)) })
 		runConcScenarios(t, c, c07ConcScenarios(c.job.Tier))
 		c.res.Engine = "S + X + A (fsck on every quiescent state of the GC history enumeration, on every recovered crash image, and at quiescence of every interleaving of the C06 scenarios with one preemption less)"
 	},
 	"C13": func(t *testing.T, c *Collector) {
 		c.res.Rule = "freed-location ledger on every history of the C04 universe: the multiset of locations that stopped being current must equal the multiset of entries ever appended to the freelist (from the MemFS log) and, after a complete cycle, the multiset presented to the primary GC; non-trivial = at least one location was superseded"
-		runSeqScenarios(c, gcScenarios("C13", c.job.Tier))
+		c.withShare(0.6, func() { runSeqScenarios(c, gcScenarios("C13", c.job.Tier)) })
 		runConcScenarios(t, c, c13ConcScenarios(c.job.Tier))
 		c.res.Engine = "S + A (ledger oracle on every sequential GC history and on every interleaving of freelist Put / Flush / hand-over scenarios)"
 	},
